@@ -86,8 +86,12 @@ impl Program {
         }
     }
     fn class(&self) -> &'static str {
+        // A task that spawns on its own pool owns a Scheduler clone: while it sits in a queue it
+        // keeps the pool's shared state alive just like a spawner that keeps its Scheduler.
+        let task_holds_scheduler = self.spawners.iter().any(|(_, ops)| ops.contains(&SpawnKind::UrgentNested));
         match (self.concurrent_drop, self.keep_scheduler) {
             (false, _) => "live-pool",
+            (true, false) if task_holds_scheduler => "concurrent-drop+scheduler-held-by-queued-task",
             (true, false) => "concurrent-drop",
             (true, true) => "concurrent-drop+scheduler-kept",
         }
@@ -359,6 +363,15 @@ fn programs(thorough: bool) -> Vec<(Program, String)> {
         v.push((mk(1, 1, vec![(0, vec![Regular]), (0, vec![Regular])], true, true), "d2".into()));
         v.push((mk(1, 1, vec![(0, vec![UrgentNested])], false, false), "1".into()));
         v.push((mk(1, 2, vec![(0, vec![UrgentNested])], false, false), "d1".into()));
+        // Breadth: every program of the thorough family once, on its default schedule ("d0" = no
+        // deviation of any kind), so that each combination of operations is at least executed
+        // and judged in the quick tier (defects that do not depend on the schedule).
+        let explicit: std::collections::BTreeSet<String> = v.iter().map(|(p, _)| p.name()).collect();
+        for (p, _) in programs(true) {
+            if !explicit.contains(&p.name()) {
+                v.push((p, "d0".into()));
+            }
+        }
         return v;
     }
     for (concurrent_drop, keep_scheduler) in [(false, false), (true, false), (true, true)] {
@@ -411,11 +424,13 @@ fn main() {
         println!("outcome={} detail={} observation={:?}\ntrace={:?}", r.outcome, r.detail, r.observation, r.trace);
         std::process::exit(0);
     }
-    let nshards = 8;
     let mut jobs = Vec::new();
     for (p, b) in &progs {
+        let b = bound_override.clone().unwrap_or_else(|| b.clone());
+        // a single default execution needs no sharding
+        let nshards = if b == "d0" { 1 } else { 8 };
         for s in 0..nshards {
-            jobs.push(format!("{}|{}|{}|{}", p.name(), s, nshards, bound_override.clone().unwrap_or_else(|| b.clone())));
+            jobs.push(format!("{}|{}|{}|{}", p.name(), s, nshards, b));
         }
     }
     let timeout = Duration::from_secs(if thorough { 3000 } else { 300 });
